@@ -117,3 +117,14 @@ def run(ctx: Context) -> None:
 
 def node_has_call(s: ast.AST, name: str) -> bool:
     return any(isinstance(c, ast.Call) and (chain(c.func) or [""])[-1] == name for c in ast.walk(s))
+
+_core_run = run
+
+
+def run(ctx: Context) -> None:  # noqa: F811
+    _core_run(ctx)
+    from . import backend
+
+    ctx.rep.rule('C13.R7', "each real backend's write() hands every byte of a frame to the OS exactly once and in order (shared with C03.R9)")
+    backend.write_all(ctx, 'C13.R7')
+    ctx.rep.explanation = (ctx.rep.explanation or '') + ' R7 (transport layer, shared with C03.R9): the backend write() delivers each encoded frame completely and in order.'
